@@ -76,8 +76,16 @@ Eval(e) ==
         cadenceOK == IF Cfg.interval_us > 0 /\ Cfg.mode # "file"
                      THEN (evals + 1) <= 1 + ((e.c - t0 + 1) \div Cfg.interval_us)
                      ELSE TRUE
+        \* staged STEP profiles: the value follows REAL time. The profile's clock starts no earlier than the run's (c counts
+        \* from before the trigger was built), so 50 ms before the step the value is still 0; 150 ms after it the value is
+        \* the step's - except for the one tick that was already waiting when a stalled trigger goroutine came back
+        \* (it carries its old timestamp): the clause speaks from the second evaluation after the stall
+        stepOK == \/ Cfg.step_at_us = 0
+                  \/ (e.c + 50000 <= Cfg.step_at_us /\ e.a = 0)
+                  \/ (e.c + 50000 > Cfg.step_at_us /\ e.c < Cfg.step_at_us + 150000)
+                  \/ (e.c >= Cfg.step_at_us + 150000 /\ (e.a = Cfg.step_val \/ evals + 1 < Cfg.stall_eval + 2))
     IN /\ why' = why \cup Fails(<< <<cadenceOK, "C09", "more-evaluations-than-ticks">>,
-                                   <<e.a >= 0 \/ TRUE, "C09", "x">> >>)
+                                   <<stepOK, "C10", "evaluated-value-is-not-the-profile-at-that-time">> >>)
        /\ evals' = evals + 1 /\ firstEvalT' = t0 /\ pendingV' = e.a
        /\ skipped' = IF pendingV # -1 THEN skipped + 1 ELSE skipped
        /\ Unch(<<lmax, setupSeen, ids, liveIds, liveH, endedIds, cleaned, succT, failT, sumTicks, lateSum, dropSum, stopSeen,
@@ -438,6 +446,7 @@ OK_C05 == Holds("C05")
 OK_C06 == Holds("C06")
 OK_C07 == Holds("C07")
 OK_C09 == Holds("C09")
+OK_C10 == Holds("C10")
 OK_C18 == Holds("C18")
 OK_C15 == Holds("C15")
 OK_C16 == Holds("C16")
